@@ -587,6 +587,12 @@ def connect_hooks(st):
         attempt = Obj(None, {}, clsname='AttemptManager')
         ex.assign(node.target, attempt, fr)
         st['attempts'] = st.get('attempts', 0) + 1
+        # the body is one attempt: the first one, or any later one - which starts after a retry wait during which the other
+        # coroutines ran (close() may have set CLOSED); the loop carries no other state from attempt to attempt
+        if ex.choose(2, 'first-attempt-or-a-retry') == 1:
+            c.world.event('suspend', 'retry-wait', [v for v in c.obj.attrs.values() if isinstance(v, LockObj) and v.held_by_me])
+            c.interfere(ex)
+            st['is_retry'] = True
         ex.exec_block(node.body, fr)
         st['attempt_completed'] = st.get('attempt_outcome') != 'retry'
 
@@ -702,6 +708,13 @@ class ConnectTask(MethodTask):
                 rt_done = c.recv_task.done_term if c.recv_task.done_term is not None else z3.BoolVal(True)
                 add('previous-receive-path-cancelled-unless-finished', z3.Implies(z3.And(c.has_recv_task, z3.Not(rt_done)), z3.BoolVal(c.recv_task in cancels)), scenario='connect')
                 add('connect-runs-under-the-connect-lock', any(e[0] == 'acquire' and e[1] is c.lock for e in w.events), scenario='connect')
+                # a fault of the new receive path asks for a reconnect, and connect() declines while the connect lock is taken:
+                # once the new receive path exists, connect() must not suspend with the lock still held
+                if loops:
+                    i0 = next(i for i, e in enumerate(w.events) if e[0] == 'spawn' and e[1] is loops[0])
+                    late = [e[1] for e in w.events[i0 + 1:] if e[0] == 'suspend' and any(l is c.lock for l in e[2])]
+                    add('no-suspension-under-the-connect-lock-once-the-receive-path-runs', not late,
+                        f'connect() suspends at {late} holding the connect lock after it started the receive loop: a fault of that loop then asks for a reconnect that is declined, and nobody retries', 'fault-before-connected-reported')
             else:
                 # connected but nothing started: only allowed because the client was closed meanwhile - and then the new link must be shut
                 closes = w.of('writer.close')
@@ -807,6 +820,29 @@ class ReceiveImplTask(MethodTask):
         st['contracts'] = {f'nmea2000.decoder.NMEA2000Decoder.{m}': dec for m in ('decode_tcp', 'decode_usb', 'decode_actisense_string', 'decode_yacht_devices_string')}
         return st
 
+    def hooks(self, st):
+        if self.cls != 'WaveShareNmea2000Gateway':
+            return {}
+
+        def while_hook(ex, s, fr, n):
+            if n >= 1:
+                st['loop_continues'] = True
+                return 'stop'
+            # the iteration that is checked is the first one of the scan loop or any later one: by the loop's own contract
+            # (checked below for every iteration) the buffer of a later iteration is a suffix of the buffer the loop started with
+            if ex.choose(2, 'first-iteration-or-a-later-one') == 1:
+                buf = st['client'].obj.attrs.get('_buffer')
+                if isinstance(buf, ABuf):
+                    k = ex.fresh('bytes_consumed_by_earlier_iterations', lo=0)
+                    ex.assume(k.t <= buf.n)
+                    nb = buf.slice(ex, k.t, None, tag='buffer')
+                    nb.mutable = True
+                    st['client'].obj.attrs['_buffer'] = nb
+                    st['buf'] = nb
+                    st['later_iteration'] = True
+            return None
+        return {'while': while_hook}
+
     def scenario(self):
         return 'eof' if self.prop == 'C13' else None
 
@@ -907,6 +943,8 @@ class ProcessQueueTask(MethodTask):
         if p.kind == 'raise':
             add('consumer-ends-only-by-cancellation', p.exc_name() == 'CancelledError', f'consumer loop dies with {p.exc_name()}: later messages are never delivered')
         add('consumer-writes-no-connection-state', not w.of('state'))
+        # the receive loop is the only producer: an item the consumer puts back would overtake / fall behind the others
+        add('consumer-never-puts-items-on-the-queue', not w.of('put'), f'{len(w.of("put"))} item(s) put (back) on the receive queue by the consumer: the FIFO order is no longer the wire order', 'callback-window')
 
 
 # ---------------------------------------------------------------------------------------------
